@@ -495,6 +495,7 @@ func clStitch(c *Ctx) {
 	}, "a writer's item delta is not reset: it is counted again by the next snapshot")
 
 	// the stitched head goes into the snapshot
+	c.Check(len(p.storesTo(fn, fGclist)) >= 1, fn, nil, "snapshot receives the stitched garbage list", "the writers' garbage lists are reset but attached to no snapshot: those versions are never collected")
 	for _, st := range p.storesTo(fn, fGclist) {
 		okSrc := true
 		seen := map[ssa.Value]bool{}
